@@ -541,6 +541,9 @@ def step (s : State) (toks : List String) : State × String :=
       let reg := (regScript Reg.empty stdScript).1
       ({ s with insts := store s.insts id { st := { isRoot := isRoot, nChildren := n, reg := reg }, autoDrain := true, parked := some [] } }, "ok")
     | _, _, _ => (s, "bad-op")
+  -- `parked sibling`: as `parked`, while the server stores another tree over the same servers in the same depth-first
+  -- order (a chain): its id is another one (the id depends on the structure), so nothing changes
+  | ["inst", id, r, n, "std", "parked", "sibling"] => step s ["inst", id, r, n, "std", "parked"]
   | ["iarrive", id] => innerStep s ["iarrive", id]
   -- `ifail | <op> | <op> …`: a flush of another tree hands over a parked message that cannot be delivered (no such
   -- protocol); while that hand-over runs, the operations are executed one after the other. The failed message
